@@ -12,7 +12,7 @@ import random
 from collections import Counter
 from itertools import permutations, product
 
-from ..common import Result, sut, digest
+from ..common import Result, sut, digest, SutRaised
 from ..taps import RandomTap, installed
 from ..stats import two_stage
 from .. import gen
@@ -20,14 +20,14 @@ from .. import gen
 ID = "C03"
 RULE = ("small joint degree sequences whose placement space can be enumerated: k degree-1 vertices (k=4,6), mixed degrees with repeats, "
         "zero-degree vertices, two topologies (edge+triangle, edge+4-cycle, triangle+triangle, path, star), custom multi-orbit motifs "
-        "with orbits (1,2) / (2,2) / bare edges; exact mode enumerates all prod(n_c!) <= 50000 shuffles (fast and custom generators), "
+        "with orbits (1,2) / (2,2) / bare edges; stub totals that are not a multiple of the motif size (fast generator, clique/path/star; accepted silently, last group short); exact mode enumerates all prod(n_c!) <= 50000 shuffles (fast and custom generators), "
         "statistical mode draws 4000 (quick) / 20000 (thorough) seeded generations (fast, custom, and network at edge-set level); "
         "non-trivial = >= 3 distinct outcomes under the oracle; distinct = SHA-1 of (configuration, jds, mode)")
 ASSUMPTIONS = ["exact part assumes randomness enters through one random.shuffle per stub list (verified per run from the tap's log); "
                "if that pattern is not observed the exact part is skipped for that case and the statistical part decides",
                "chi-square two-stage protocol (p>=1e-4 held; escalate 4x; p<1e-6 violated) + support check"]
 HEADLINE = ["exact_cases", "exact_generations", "exact_outcomes", "exact_hook_pattern_missing", "stat_cases", "stat_generations", "chi2_tests",
-            "chi2_escalations", "two_column_cases", "network_stat_cases", "custom_cases"]
+            "chi2_escalations", "two_column_cases", "network_stat_cases", "custom_cases", "nondivisible_cases", "nondivisible_rejected_by_generator"]
 REQUIRED = {"quick": {"exact_generations": 5000, "stat_generations": 20000, "two_column_cases": 5, "exact_or_stat_cases": 30},
             "thorough": {"exact_generations": 100000, "stat_generations": 200000, "two_column_cases": 20, "exact_or_stat_cases": 300}}
 MAX_INCONCLUSIVE_FRACTION = 0.0
@@ -72,6 +72,13 @@ def make_small(rng, limit):
         nm = len(cfg["motifs"])
         inst = [rng.choice([1, 2, 2, 3, 3, 4]) for _ in range(nm)]
         n_c = [inst[j] * s for s, j in cols]
+        nondiv = False
+        if cfg["flavour"] == "fast" and rng.random() < 0.3 and all(m[0] in ("clique", "path", "star") for m in cfg["motifs"]) and any(s > 1 for s, _ in cols):
+            # stub totals that are NOT a multiple of the motif size: the generator accepts such sequences silently (the last group is
+            # short), so whatever it produces must still not depend on vertex order
+            nondiv = True
+            n_c = [n + (rng.randint(1, s - 1) if s > 1 else 0) for n, (s, j) in zip(n_c, cols)]
+        cfg["nondivisible"] = nondiv
         space = 1
         for n in n_c:
             space *= math.factorial(n)
@@ -98,8 +105,8 @@ def make_small(rng, limit):
 
 
 def canon_motif(results):
-    """canonical outcome of one motif type: sorted tuple over its instances of the sorted unordered pairs"""
-    return tuple(sorted(tuple(sorted(gen.upair(e) for e in es)) for es in results))
+    """canonical outcome of one motif type: sorted tuple over its instances of (sorted vertices it was built on, sorted unordered pairs)"""
+    return tuple(sorted((tuple(sorted(vs)), tuple(sorted(gen.upair(e) for e in es))) for vs, es in results))
 
 
 def oracle_hist(cfg, jds):
@@ -111,7 +118,7 @@ def oracle_hist(cfg, jds):
         stub_lists = [[v for v, jd in enumerate(jds) for _ in range(jd[c])] for c, _ in mycols]
         shape = m[1] if cfg["flavour"] == "custom" else m[0]
         h = Counter()
-        ninst = len(stub_lists[0]) // mycols[0][1]
+        ninst = -(-len(stub_lists[0]) // mycols[0][1])      # a short last group counts (non-divisible totals)
         # enumerate *distinct* arrangements with multiplicity: permutations of positions (all n! of them)
         perms_per_col = [list(permutations(sl)) for sl in stub_lists]
         for combo in product(*perms_per_col):
@@ -120,7 +127,7 @@ def oracle_hist(cfg, jds):
                 vs = []
                 for (c, s), arr in zip(mycols, combo):
                     vs += list(arr[i * s:(i + 1) * s])
-                insts.append(gen.shape_edges(shape, vs) if shape != "bare" else [(vs[0], vs[1])])
+                insts.append((vs, gen.shape_edges(shape, vs) if shape != "bare" else [(vs[0], vs[1])]))
             h[canon_motif(insts)] += 1
         hists.append(h)
     return hists
@@ -129,7 +136,7 @@ def oracle_hist(cfg, jds):
 def observed_outcome(cfg, rec):
     out = []
     for j in range(len(cfg["motifs"])):
-        out.append(canon_motif([c[2] for c in rec.calls if c[0] == j]))
+        out.append(canon_motif([(c[1], c[2]) for c in rec.calls if c[0] == j]))
     return tuple(out)
 
 
@@ -150,6 +157,16 @@ def run_case(case):
         cfg, jds, n_c = make_small(rng, 5040)
         if rng.random() < 0.3 and cfg["flavour"] == "fast":
             cfg["flavour"] = "network"
+    if cfg.get("nondivisible"):
+        res.count("nondivisible_cases")
+        try:
+            run_once(cfg, jds, RandomTap(seed=1))
+        except SutRaised:
+            # a generator that rejects non-handshake input is outside this clause: nothing is asserted
+            res.count("nondivisible_rejected_by_generator")
+            res.sample = {"cfg": cfg, "jds": jds, "note": "generator rejects this non-divisible input"}
+            res.digest = digest([cfg, jds, "rejected"])
+            return res
     hists = oracle_hist(cfg, jds)
     joint = Counter()
     for combo in product(*[h.items() for h in hists]):
@@ -196,7 +213,7 @@ def run_case(case):
             # project to collapsed edge sets
             e2 = Counter()
             for k, p in expected.items():
-                e2[frozenset(p for motif in k for inst in motif for p in inst)] += p
+                e2[frozenset(p for motif in k for inst in motif for p in inst[1])] += p
             expected = dict(e2)
 
         def draw(n, stage):
